@@ -34,6 +34,7 @@ type subRec struct {
 	unsubRet    int64
 	subscribed  bool
 	unsubPlan   bool
+	unsubTwice  bool
 	stopRecv    bool // stop receiving as soon as Unsubscribe returned (C09 family)
 	slow        int  // milliseconds (fake clock) this subscriber takes per message
 	got         []delivery
@@ -44,15 +45,16 @@ type subRec struct {
 }
 
 type brokerSetup struct {
-	b        *pubsub.Broker[int]
-	kind     string
-	lossless bool
-	workers  int
-	parallel bool
-	buf      int
-	capacity int
-	cancel   context.CancelFunc
-	ctx      context.Context
+	b          *pubsub.Broker[int]
+	kind       string
+	lossless   bool
+	workers    int
+	optWorkers int
+	parallel   bool
+	buf        int
+	capacity   int
+	cancel     context.CancelFunc
+	ctx        context.Context
 }
 
 var brokerKinds = []string{"channel", "queue-unlimited", "deque-unlimited", "queue-bounded", "deque-bounded", "lifo"}
@@ -66,14 +68,19 @@ func makeBroker(w *W) *brokerSetup {
 	kind := simrt.Choose(len(brokerKinds))
 	bs.kind = brokerKinds[kind]
 	bs.parallel = simrt.Choose(2) == 1
-	bs.workers = 1 + simrt.Choose(3)
-	bs.buf = simrt.Choose(3)
+	// the options as given: a non-positive pool size means one worker, a
+	// negative buffer size none (bs.workers / bs.buf are the effective values)
+	optWorkers := []int{1, 2, 3, 0, -2}[simrt.Choose(5)]
+	bs.workers = max(optWorkers, 1)
+	bs.optWorkers = optWorkers
+	optBuf := []int{0, 1, 2, -1}[simrt.Choose(4)]
 	if simrt.Choose(2) == 0 {
-		bs.buf = 0
+		optBuf = 0
 	}
+	bs.buf = max(optBuf, 0)
 	capacity := 1 + simrt.Choose(3) // bounded back-ends: 1..3 (capacity 1 is its own corner: evict == insertion point)
 	bs.capacity = capacity
-	opts := pubsub.BrokerOptions{BufferSize: bs.buf, ParallelDispatch: bs.parallel, WorkerPoolSize: bs.workers}
+	opts := pubsub.BrokerOptions{BufferSize: optBuf, ParallelDispatch: bs.parallel, WorkerPoolSize: optWorkers}
 	bctx, cancel := context.WithCancel(w.Ctx)
 	if brokerDeadline > 0 {
 		bctx, cancel = context.WithTimeout(w.Ctx, brokerDeadline)
@@ -102,7 +109,7 @@ func makeBroker(w *W) *brokerSetup {
 }
 
 func (bs *brokerSetup) String() string {
-	return fmt.Sprintf("%s parallel=%v workers=%d buf=%d cap=%d lossless=%v", bs.kind, bs.parallel, bs.workers, bs.buf, bs.capacity, bs.lossless)
+	return fmt.Sprintf("%s parallel=%v workers=%d(option %d) buf=%d cap=%d lossless=%v", bs.kind, bs.parallel, bs.workers, bs.optWorkers, bs.buf, bs.capacity, bs.lossless)
 }
 
 // brokerWorkload starts publishers and subscribers; faults selects the C09 fault families.
@@ -149,6 +156,11 @@ func brokerWorkload(w *W, h *Hist, bs *brokerSetup, faults bool) ([]*pubRec, []*
 			if sr.stopRecv {
 				stop = true
 			}
+			if sr.unsubTwice {
+				// an explicit Unsubscribe plus a deferred one: the second is for
+				// a channel that is no longer subscribed and concerns nobody
+				bs.b.Unsubscribe(sr.ctx, ch)
+			}
 			if again {
 				// the same client subscribes again: a new channel with a window
 				// of its own (nothing from before may be replayed into it twice)
@@ -172,6 +184,7 @@ func brokerWorkload(w *W, h *Hist, bs *brokerSetup, faults bool) ([]*pubRec, []*
 		delay := simrt.Choose(3)
 		unsubAt := simrt.Choose(150)
 		again := sr.unsubPlan && simrt.Choose(2) == 0
+		sr.unsubTwice = sr.unsubPlan && simrt.Choose(3) == 0
 		subs = append(subs, sr)
 		simrt.Spawn(fmt.Sprintf("sub%d-control", s), func() { runSub(sr, delay, unsubAt, again) })
 	}
@@ -576,7 +589,7 @@ func c09Run(w *W) {
 func init() {
 	Register(&Workload{Prop: "C08", Name: "delivery", MaxSteps: 6000, Run: c08Run})
 	// cells: back-end kind x ParallelDispatch x WorkerPoolSize (the first draws of makeBroker)
-	Register(&Workload{Prop: "C09", Name: "progress", MaxSteps: 6000, Cells: []int{6, 2, 3}, Run: c09Run})
-	Register(&Workload{Prop: "C09", Name: "shutdown-faults", Faulty: true, MaxSteps: 6000, Cells: []int{6, 2, 3}, Run: c09Run})
+	Register(&Workload{Prop: "C09", Name: "progress", MaxSteps: 6000, Cells: []int{6, 2, 5}, Run: c09Run})
+	Register(&Workload{Prop: "C09", Name: "shutdown-faults", Faulty: true, MaxSteps: 6000, Cells: []int{6, 2, 5}, Run: c09Run})
 	Register(&Workload{Prop: "C09", Name: "shutdown-deadline", Faulty: true, MaxSteps: 6000, ClockJump: 40, Run: c09Run})
 }
